@@ -107,6 +107,10 @@ def gen_plan(seed, k):
             hops.append({"op": "recv", "i": 0, "name": "h.%d" % n})
         actors["h"] = hops
     main.append({"op": "run", "i": 0, "block": block, "until": ["FINISHED"], "max": (4000 if block == 1 else 1500) * (8 if bulk else 1)})
+    if not bulk and rp.random() < 0.12:
+        # a snapshot is taken whenever the session rests: serialize() stops and restarts the timer thread while
+        # timers are pending; none of them may be lost, doubled or shifted by that
+        main[-1]["snap"] = True
     pol = rs.choice(["random", "random", "sticky", "pct"])
     sched = {"seed": rs.getrandbits(31), "policy": pol,
              "sticky_p": rs.choice([0.5, 0.8, 0.95]), "pct_d": rs.randint(1, 4), "pct_horizon": rs.choice([100, 300, 800]),
